@@ -96,4 +96,22 @@ Definition put_ts (b : bytes) (off v : N) : Res bytes :=
   let? tail := slice_from b off in
   let? tail' := Pts.insert_pts tail v in
   Ok (takeN off b ++ tail').
+
+(* ---- packet/create.go: the library's own PES-start builder ---- *)
+(* packet.SetPayload(pkt, pay): for i < PacketSize && j < len(pay) { pkt[i] = pay[j] } from payloadStart *)
+Definition pkt_set_payload (pkt pay : bytes) : bytes := blit pkt (pkt_payload_start pkt) pay.
+(* packet.WithPES(pkt, pts) *)
+Definition with_pes (pkt : bytes) (pts : N) : Res bytes :=
+  let pay := repeatN 0 184 in                       (* make([]byte, size, size), size = PacketSize - 4 *)
+  let pay := upd (upd (upd pay 0 0) 1 0) 2 1 in     (* packet_start_code_prefix *)
+  let pay := upd pay 3 184 in                       (* stream id *)
+  let pay := upd pay 4 0 in                         (* packet length, high byte; pay[5] is left as made *)
+  let pay := upd pay 6 64 in                        (* "data alignment indicator" : 0x40 as written *)
+  let pay := upd pay 7 128 in                       (* PTS_DTS indicator = only PTS *)
+  let pay := upd pay 8 14 in                        (* header length *)
+  let? s := slice pay 9 14 in
+  let? s' := Pts.insert_pts s pts in                (* gots.InsertPTS(pay[9:14], pts) writes through the slice *)
+  let pay := blit pay 9 s' in
+  let pkt := pkt_set_payload pkt pay in             (* SetPayload(pkt, pay) *)
+  Ok (upd pkt 3 (N.lor (nthN pkt 3) 16)).           (* WithHasPayloadFlag(pkt) *)
 End Pes.
